@@ -289,3 +289,13 @@ def ok_payloads(terms):
         if t[0] == "agg" and t[1] == "std::result::Result::Ok" and len(t[2]) == 1:
             out |= set(t[2][0])
     return out
+
+
+def check_kind_equality(ctx, lib, rule):
+    """The equality and order tables read `a.get_type() == b.get_type()` as "same kind of value": that holds when `==` on
+    JmespathType is the derived one (a hand-written impl could identify two kinds). Shared by C10, C02 and, through them, C01."""
+    b = ctx.fn("<variable::JmespathType as std::cmp::PartialEq>::eq", rule=rule)
+    if b is None:
+        return
+    ctx.check(bool(b.j.get("auto_derived")), rule, "kind-equality-derived",
+              "`==` on JmespathType is the derived structural equality (kinds are never identified)", b.span)
